@@ -4,7 +4,7 @@
    run_client cfg cs      the model of Builder::socket(..).p2p().build() / Builder::address(..guid=..) on the client
                           side (C17/Model.v) reading the chunks cs (what successive recvmsg calls return)
    ODone w fd tail fds    completed: bytes written, cap_unix_fd, bytes and fds handed to the message reader
-   tokens, no_lf, guid_ok, empty_line_ahead     C16/Spec.v;   spec_client, cconforms, agrees      C17/Spec.v, C17/Proofs.v *)
+   tokens, no_lf, guid_ok     C16/Spec.v;   spec_client, cconforms      C17/Spec.v *)
 From ZV Require Import Base.Bytes Base.Res C16.Model C16.Spec C17.Model C17.Spec C17.Proofs.
 
 (* ---- every way the stream is cut gives the same outcome *)
@@ -37,42 +37,33 @@ Theorem C17_done_sound : forall cfg cs w fd tail fds,
 Proof. exact client_done_sound. Qed.
 Print Assumptions C17_done_sound.
 
-(* ---- the full statement (the observable outcome is the one the specification prescribes, including that a
-        proper acceptance does complete and that nothing panics) does NOT hold of the pinned code: *)
-Definition C17_full_statement : Prop :=
-  forall cfg cs, chunks_nonempty cs = true ->
-    cconforms (cverdict_of (cctx_of cfg) (stream_of cs)) (fds_of cs) (obs_of (run_client cfg cs)) = true.
-
-Theorem C17_full_statement_refuted : ~ C17_full_statement.
-Proof. exact client_full_statement_refuted. Qed.
-Print Assumptions C17_full_statement_refuted.
-
-(* ---- ... and holds outside the one known class (an LF where a reply line should start) *)
-Theorem C17_conforms_partial : forall cfg cs,
+(* ---- the full statement, on every stream and every chunking: the observable outcome is the one the specification
+        prescribes — failure unless the first reply is a proper OK, the prescribed fd capability and leftover after
+        AGREE_UNIX_FD / ERROR, "fail or go on without fds" after any other second reply, and never a panic.
+        (Before the repair 49785cde of Common::read_commands this was refuted by a bare LF; it now holds.) *)
+Theorem C17_conforms : forall cfg cs,
   chunks_nonempty cs = true ->
-  cknown_class (cctx_of cfg) (stream_of cs) = None ->
-  cconforms (cverdict_of (cctx_of cfg) (stream_of cs)) (fds_of cs) (obs_of (run_client cfg cs)) = true.
+  cconforms (spec_client (cctx_of cfg) (stream_of cs)) (fds_of cs) (obs_of (run_client cfg cs)) = true.
 Proof. exact client_conforms. Qed.
-Print Assumptions C17_conforms_partial.
+Print Assumptions C17_conforms.
 
-(* in particular a proper acceptance completes, with the prescribed fd capability and leftover *)
-Theorem C17_complete_partial : forall cfg cs fd tail,
+(* in particular a proper acceptance completes, with the prescribed fd capability and leftover ... *)
+Theorem C17_complete : forall cfg cs fd tail,
   chunks_nonempty cs = true ->
-  cknown_class (cctx_of cfg) (stream_of cs) = None ->
-  cverdict_of (cctx_of cfg) (stream_of cs) = CVDone fd tail ->
+  spec_client (cctx_of cfg) (stream_of cs) = CVDone fd tail ->
   exists w, run_client cfg cs = ODone w fd tail (fds_of cs).
 Proof. exact client_complete. Qed.
-Print Assumptions C17_complete_partial.
+Print Assumptions C17_complete.
 
-(* ---- no panic, unless an LF stands where a line should start *)
-Theorem C17_nopanic_partial : forall cfg cs,
+(* ... and what the specification says must fail (no OK, bad or unexpected GUID, EOF) fails, without panic *)
+Theorem C17_fails : forall cfg cs,
   chunks_nonempty cs = true ->
-  empty_line_ahead (stream_of cs) true = false ->
-  is_panic (run_client cfg cs) = false.
-Proof. exact client_nopanic_partial. Qed.
-Print Assumptions C17_nopanic_partial.
+  spec_client (cctx_of cfg) (stream_of cs) = CVFail ->
+  is_done (run_client cfg cs) = false /\ is_panic (run_client cfg cs) = false.
+Proof. exact client_fails. Qed.
+Print Assumptions C17_fails.
 
-Theorem C17_lf_panic_refuted :
-  exists cfg cs, chunks_nonempty cs = true /\ is_panic (run_client cfg cs) = true.
-Proof. exact client_lf_panic_refuted. Qed.
-Print Assumptions C17_lf_panic_refuted.
+(* ---- no input makes the client panic *)
+Theorem C17_nopanic : forall cfg cs, chunks_nonempty cs = true -> is_panic (run_client cfg cs) = false.
+Proof. exact client_nopanic. Qed.
+Print Assumptions C17_nopanic.
